@@ -22,9 +22,19 @@ ROLES = ["miner", "foundation", "claim:only", "claim:owner", "v1valid", "v1misse
          "v2renter:expiration", "v2host:renewal", "v2host:proof", "v2host:expiration", "payment", "spender", "ephemeral"]
 
 
+def assumed_fixed():
+    """VERIF_C06_FIXED=C06-claim-event,C06-renewal-payee: treat these findings as repaired (to try a
+    candidate fix in a scratch tree -- tools/seedtest.sh style -- before known_findings.json is edited)"""
+    return {x for x in os.environ.get("VERIF_C06_FIXED", "").split(",") if x}
+
+
+def open_findings():
+    return [f for f in vlib.load_findings(PROP) if f.get("status") == "open" and f.get("id") not in assumed_fixed()]
+
+
 def open_devs():
     """deviation constants that are TRUE: the findings of this property that are still open"""
-    return {DEV[f["id"]] for f in vlib.load_findings(PROP) if f.get("status") == "open" and f.get("id") in DEV}
+    return {DEV[f["id"]] for f in open_findings() if f.get("id") in DEV}
 
 
 def faithful_cfg(wd, name):
@@ -209,6 +219,7 @@ def run(tier):
     t0 = time.time()
     wd = vlib.workdir(PROP)
     verdict = vlib.Verdict(PROP)
+    verdict.findings = [f for f in verdict.findings if f.get("id") not in assumed_fixed()]
     binary = vlib.go_build(PKG, wd)
     trees, specs, refs, gen = gen_trees(wd, binary, tier)
     log("  materialised %d real trees (%d blocks, %d on valid chains) -> %d abstract trees (tree x wallet persona); roles of the wallet address: %s" %
